@@ -394,19 +394,27 @@ func processorsOf(v *View, plID string) []string {
 // pipeline status (orchestrator guards) and the processors' running flag
 // (processor.Service.Update/Delete guard; set by MakeRunnableProcessor exactly
 // as the lifecycle service does when it builds the nodes).
-func (w *world) simStart(v *View, plID string) error {
+func (w *world) simStart(v *View, plID string) (started bool, err error) {
+	var made []string
 	for _, pid := range processorsOf(v, plID) {
 		inst, err := w.svc.procs.Get(w.ctx, pid)
 		if err != nil {
-			return err
+			return false, err
 		}
 		r, err := w.svc.procs.MakeRunnableProcessor(w.ctx, inst)
 		if err != nil {
-			return err
+			// The pipeline cannot start (e.g. Processors.Update stored a plugin
+			// name nothing provides): undo, the pipeline stays stopped.
+			for _, id := range made {
+				_ = w.runnables[id].Teardown(w.ctx)
+				delete(w.runnables, id)
+			}
+			return false, nil
 		}
 		w.runnables[pid] = r
+		made = append(made, pid)
 	}
-	return w.svc.pls.UpdateStatus(w.ctx, plID, pipeline.StatusRunning, "")
+	return true, w.svc.pls.UpdateStatus(w.ctx, plID, pipeline.StatusRunning, "")
 }
 
 // simStop ends the simulated run: processors are torn down (clears the running
